@@ -63,6 +63,12 @@ func checkC09(w *World, r *Report) {
 	monotoneAtomLint(w, r, "C09.lisp-monotone")
 	identityObjectsRule(w, r, "C09.one-object", "Atom")
 	atomConstructorRule(w, r, e, "C09.constructor")
+	// "issued by any number of simultaneous evaluations or futures ... with no update lost": a future that issues
+	// updates runs until its creator's context ends or it is cancelled itself, not until some other future returns
+	r.include("C09.issuer-", "C10.", "an update issued by a running future is not lost because the future that started it has returned: a future's body is stopped only through its creator's context or future-cancel", checkC10, func(rule string) bool {
+		return rule == "C10.ctx"
+	})
+	readersWriteNothingRule(w, r, e, "C09.readers-pure", "Atom", w.roles().atomMutex)
 	releaseOnPanicRule(w, r, e, "C09.release-on-panic", w.pkgFuncs("lib/concurrent"))
 	// "swap! ... installs and returns the result": swap!, reset! and deref reach programs through the binder's
 	// adapter closures, which must hand back what the operation returned
@@ -1963,7 +1969,7 @@ func cancelAnswerRule(w *World, r *Report, e *Engine, rule string) {
 // evaluations share.  The confirmed inventory is the debugger's stepping flags (written only while a stepper is
 // installed: C11.globals).  Anything else - a cache, a counter, a scratch buffer, a sync.Map - is reported.
 func sharedStateRule(w *World, r *Report, rule string) {
-	r.rule(rule, "outside package initialisation no function of the library assigns a package-level variable, writes into storage one holds or updates a package-level sync container, except the debugger's stepping flags (C11.globals): caches, counters and scratch buffers at package level are shared, unlocked or not, by every evaluation")
+	r.rule(rule, "outside package initialisation no function of the library assigns a package-level variable, writes into storage one holds, updates a package-level sync container or sends on / receives from a package-level channel, except the debugger's stepping flags (C11.globals): caches, counters and scratch buffers at package level are shared, unlocked or not, by every evaluation")
 	allowed := map[string]bool{}
 	if m := newEvalModel(w, newEngine(w)); m.ok {
 		for g := range m.flags {
@@ -2000,6 +2006,29 @@ func sharedStateRule(w *World, r *Report, rule string) {
 					if ld, ok := x.Map.(*ssa.UnOp); ok {
 						if gl, ok := ld.X.(*ssa.Global); ok {
 							g, what = gl, "map write"
+						}
+					}
+				case *ssa.Send:
+					// a package-level channel used as a pool or mailbox: what one evaluation puts in another takes out
+					if ld, ok := x.Chan.(*ssa.UnOp); ok {
+						if gl, ok := ld.X.(*ssa.Global); ok {
+							g, what = gl, "send on the channel"
+						}
+					}
+				case *ssa.Select:
+					for _, st := range x.States {
+						if ld, ok := st.Chan.(*ssa.UnOp); ok {
+							if gl, ok := ld.X.(*ssa.Global); ok {
+								g, what = gl, "send or receive (select) on the channel"
+							}
+						}
+					}
+				case *ssa.UnOp:
+					if x.Op == token.ARROW {
+						if ld, ok := x.X.(*ssa.UnOp); ok {
+							if gl, ok := ld.X.(*ssa.Global); ok {
+								g, what = gl, "receive from the channel"
+							}
 						}
 					}
 				case ssa.CallInstruction:
